@@ -631,7 +631,11 @@ def gen_ops(rng, host, cfg, maxlen):
             kinds += ["RdTarget"] * 2 + ["WrTarget"] * 2 + ["DelTarget"] * 2
         kinds += ["DeepCopy"]
         if host["spec"]:
-            kinds += ["WithAlias"] * 2 + ["TransformAlias"] * 3 + ["UpdateAlias", "ResetAlias"]
+            kinds += ["WithAlias"] * 2
+            if cfg["path"]:
+                # (an empty path makes the alias read the HOST itself, which is not a tree, and
+                # the repr in the helper's TypeError message reads the alias once more)
+                kinds += ["TransformAlias"] * 3 + ["UpdateAlias", "ResetAlias"]
             if len(cfg["path"]) == 1 and cfg["path"][0][0] == "A":
                 kinds += ["WithTarget"] * 2 + ["TransformTarget"] * 2 + ["UpdateTarget", "ResetTarget"]
         k = rng.choice(kinds)
